@@ -81,7 +81,10 @@ func (x *XArray) Format(env envs.Environment) string {
 	if multiline {
 		for i, p := range parts {
 			p = utils.Indent(p, "  ")
-			parts[i] = "-" + p[1:]
+			if p != "" {
+				p = p[1:] // replace first char of indent with list marker
+			}
+			parts[i] = "-" + p
 		}
 
 		return strings.Join(parts, "\n")
